@@ -78,10 +78,13 @@ TPause   == IsEvent("pause") /\ PauseWorkflow /\ LoggedP(Ev.s)
 TUnpause == IsEvent("unpause") /\ Unpause /\ LoggedP(Ev.s)
 TRestart == IsEvent("sendrestart") /\ SendRestart(Ev.stage) /\ LoggedP(Ev.s)
 TRegion  == IsEvent("sendregion") /\ SendCancelRegion(Ev.region) /\ LoggedP(Ev.s)
+TSwSnap  == IsEvent("sweepsnap") /\ SweepSnap /\ LoggedP(Ev.s)
+TSwLook  == IsEvent("sweeplook") /\ SweepLook /\ LoggedP(Ev.s)
+TSwPush  == IsEvent("sweeppush") /\ SweepPush /\ LoggedP(Ev.s)
 TEarly   == IsEvent("early") /\ EarlyStart(Ev.stage) /\ LoggedP(Ev.s)
 
 TraceNext == TCommit \/ TDedup \/ TTrusted \/ TBloomReset \/ TExec \/ THRet \/ THRaise \/ THFail \/ TNoAck \/ TWarp \/ TExpire
-             \/ TSweep \/ TDlq \/ TCrash \/ TCancel \/ TEarly \/ TSignal \/ TClaimSweep \/ TPause \/ TUnpause \/ TRestart \/ TRegion
+             \/ TSweep \/ TDlq \/ TCrash \/ TCancel \/ TEarly \/ TSignal \/ TClaimSweep \/ TPause \/ TUnpause \/ TRestart \/ TRegion \/ TSwSnap \/ TSwLook \/ TSwPush
 
 TraceSpec == TraceInit /\ [][TraceNext]_tvars
 
